@@ -261,6 +261,25 @@ def judge_vector(t, seed, fam, spec, vid=None):
                 s = SCALES[si]
                 viol(ind, "invariance", f"gen.{ind} = {r!r} after scaling by {s:.6g}{' and unit-normalising' if normed else ''}, "
                      f"{ref[ind]!r} before, on {phi0.tolist()[:6]}", extra)
+    # the SAME array object, rescaled in place between two calls (a shape being normalised by its owner): MAC must follow
+    # the values now in the array, whatever was in it at the previous call
+    x = phi0.copy()
+    other = (SCALES[9] * phi0).copy()
+    try:
+        m0 = scalar(gen.MAC(x, other))
+        for s_ in (SCALES[2], SCALES[-3]):
+            x *= s_
+            m1 = scalar(gen.MAC(x, other))
+            t.evaluations += 1
+            t.validated += 1
+            if m0 is None or m1 is None or not np.isfinite(m1) or abs(float(np.real(m1)) - float(np.real(m0))) > TOL_INV:
+                viol("MAC", "invariance-same-array-rescaled-in-place",
+                     f"MAC(x, a) = {m1!r} after x *= {s_:.4g} in place, {m0!r} before, x0 = {phi0.tolist()[:6]}", {"inplace": True})
+                break
+        else:
+            t.outcomes["MAC:same-array-rescaled-in-place:ok"] += 1
+    except Exception as e:
+        viol("MAC", f"raises-{type(e).__name__}", f"gen.MAC raised {type(e).__name__}: {e}", {"inplace": True})
     # MSF(v, c v) = c
     for label, v in (("raw", phi0), ("scaled", SCALES[7] * phi0), ("real-base", base)):
         if v is None:
@@ -459,7 +478,7 @@ def explore(ctx):
     ctx.pmap(work_macsets, mitems, chunksize=1)
     ctx.require("class:collinear", "class:collinear+zero", "class:constant-base", "class:general", "class:general+zero",
                 "class:near-collinear", "class:isotropic(MPD invariance not judged)", "MSF:ok:c<0", "MSF:ok:c>0",
-                "MSF:outside-domain", "macsets:ok", "macsets:asymmetric-matrix(orientation observable)", "vector-judged")
+                "MSF:outside-domain", "MAC:same-array-rescaled-in-place:ok", "macsets:ok", "macsets:asymmetric-matrix(orientation observable)", "vector-judged")
 
 
 def _cplx(x):
